@@ -254,7 +254,61 @@ func expectCopyRaw(src fsmodel.Tree, c c13Case) c13Expect {
 	return ex
 }
 
-func judgeC13(c c13Case) (string, string) {
+// judgeC13Repoint: two copies from ONE source root in one process; between them a symlink on the way to the copied
+// path is pointed elsewhere (current -> releases/v1, then -> releases/v2). Each copy reproduces what the path names
+// when it runs.
+func judgeC13Repoint(c c13Case) (string, string) {
+	root := scratch.Dir("cp13r")
+	defer scratch.Remove(root)
+	src := filepath.Join(root, "src")
+	T := fsmodel.T0
+	f := func(p, data string, i int64) fsmodel.Node {
+		return fsmodel.Node{Path: p, Kind: fsmodel.File, Perm: 0644, Mtime: T + i, Data: []byte(data)}
+	}
+	d := func(p string) fsmodel.Node { return fsmodel.Node{Path: p, Kind: fsmodel.Dir, Perm: 0755, Mtime: T} }
+	tree := fsmodel.Tree{d("releases"), d("releases/v1"), f("releases/v1/app", "version 1", 1), d("releases/v1/conf"), f("releases/v1/conf/x", "x1", 2),
+		d("releases/v2"), f("releases/v2/app", "version two", 3), d("releases/v2/conf"), f("releases/v2/conf/y", "y2", 4)}
+	os.Mkdir(src, 0755)
+	if err := fsmodel.Materialize(tree, src); err != nil {
+		return "infra", err.Error()
+	}
+	for step, ver := range []string{"v1", "v2", "v1"} {
+		os.Remove(filepath.Join(src, "current"))
+		if err := os.Symlink("releases/"+ver, filepath.Join(src, "current")); err != nil {
+			return "infra", err.Error()
+		}
+		for _, what := range []string{"current/app", "current/conf"} {
+			dst := filepath.Join(root, fmt.Sprintf("dst%d", step))
+			os.Mkdir(dst, 0755)
+			ci := fscopy.CopyInfo{FollowLinks: c.Opts.Follow, CopyDirContents: false}
+			if err := boundedCopy(func() error { return fscopy.Copy(context.Background(), src, what, dst, "/", fscopy.WithCopyInfo(ci)) }); err != nil {
+				return "copy-failed", fmt.Sprintf("step %d (%s): %v", step, what, err)
+			}
+			got, err := fsmodel.Snapshot(dst)
+			if err != nil {
+				return "infra", err.Error()
+			}
+			if what == "current/app" {
+				n := got.Find("app")
+				want := tree.Find("releases/" + ver + "/app")
+				if n == nil || string(n.Data) != string(want.Data) {
+					return "copy-differs:stale-source", fmt.Sprintf("copy #%d of %q while current -> releases/%s: got %v, the source path holds %q", step+1, what, ver, n, want.Data)
+				}
+			} else {
+				name := map[string]string{"v1": "conf/x", "v2": "conf/y"}[ver]
+				if got.Find(name) == nil {
+					return "copy-differs:stale-source", fmt.Sprintf("copy #%d of %q while current -> releases/%s: %s is missing from %v", step+1, what, ver, name, got.Paths())
+				}
+			}
+		}
+	}
+	return "", ""
+}
+
+func judgeC13Raw(c c13Case) (string, string) {
+	if c.Tree == "repoint" {
+		return judgeC13Repoint(c)
+	}
 	root := scratch.Dir("cp13")
 	defer scratch.Remove(root)
 	// the roots carry pattern metacharacters in their own names: only what lies below a root is ever matched
@@ -494,6 +548,7 @@ func runC13(r *evid.Run) {
 	}
 	// a tolerant xattr error handler and a destination that refuses one attribute value
 	for _, o := range []c13Opts{{AllowX: true}, {AllowX: true, Chown: true, Utime: true}} {
+		cases = append(cases, c13Case{Tree: "repoint", Src: "current/*", Dst: "/", Opts: o})
 		cases = append(cases, c13Case{Tree: "xfail", Src: "/", Dst: "/", DirC: true, Opts: o}, c13Case{Tree: "xfail", Src: "/", Dst: "new", DirC: true, Opts: o},
 			c13Case{Tree: "xfail", Src: "*", Dst: "/", Opts: o, Wild: true})
 	}
@@ -530,4 +585,14 @@ func replayC13(raw json.RawMessage) string {
 		return ""
 	}
 	return k + ": " + m
+}
+
+// judgeC13 is judgeC13Raw with a panic of the code under test turned into a verdict (never a crash of the check).
+func judgeC13(c c13Case) (k, m string) {
+	defer func() {
+		if r := recover(); r != nil {
+			k, m = "panic", fmt.Sprintf("the code under test panicked: %v", r)
+		}
+	}()
+	return judgeC13Raw(c)
 }
